@@ -2,6 +2,7 @@ mod api;
 mod db;
 mod lexrun;
 mod render;
+mod rqjson;
 mod run;
 mod target;
 mod value;
@@ -17,7 +18,23 @@ fn main() {
         "run" => run::main(&args[1..]),
         "lexrun" => lexrun::main(&args[1..]),
         "target" => target::main(&args[1..]),
+        "rqjson" => rqjson::main(&args[1..]),
         "lexlist" => lexrun::main_list(&args[1..]),
+        "render-ndjson" => {
+            // args: <dbset.json> <programs.ndjson> <out.ndjson of {"id","src"}>
+            use std::io::Write;
+            let dbset: serde_json::Value =
+                serde_json::from_str(&std::fs::read_to_string(&args[1]).expect("dbset")).expect("json");
+            let mut out = std::io::BufWriter::new(std::fs::File::create(&args[3]).expect("out"));
+            for l in std::fs::read_to_string(&args[2]).expect("programs").lines() {
+                if l.trim().is_empty() {
+                    continue;
+                }
+                let p: serde_json::Value = serde_json::from_str(l).expect("json");
+                writeln!(out, "{}", serde_json::json!({"id": p["id"], "src": render::program(&p, &dbset["schema"])})).unwrap();
+            }
+            0
+        }
         "render" => {
             // stdin: one program per line -> PRQL text
             let dbset: serde_json::Value =
